@@ -39,12 +39,16 @@ WIDTH = {"u8": 1, "i8": 1, "u16": 2, "i16": 2, "u32": 4, "i32": 4, "u64": 8, "i6
 
 
 class Ev:
-    __slots__ = ("enc", "attr", "span", "sub", "checked")
+    __slots__ = ("enc", "attr", "span", "sub", "checked", "fn", "pos")
 
-    def __init__(self, enc, attr=None, span=None, sub=None, checked=False):
-        if attr in ("ret", "self", "e", "b", "w", "r"):
+    def __init__(self, enc, attr=None, span=None, sub=None, checked=False, fn=None, pos=None):
+        self.pos = pos
+        if attr in ("ret", "self", "e", "b", "w", "r", "map_or", "f", "x", "v"):
             attr = None
-        self.enc, self.attr, self.span, self.sub, self.checked = enc, attr, span, sub, checked
+        self.enc, self.attr, self.span, self.sub, self.checked, self.fn = enc, attr, span, sub, checked, fn
+
+    def ident(self):
+        return (self.key(), self.attr)
 
     def key(self):
         if self.sub is not None:
@@ -94,13 +98,34 @@ class Linear:
                     return k
             if NESTED_R.search(p) and not p.startswith("core::") and self._takes_stream(t):
                 return "nested"
+            if self._stream_closure(t, side):
+                return "iter"
         else:
             for rx, k in ((W_INT, "int"), (W_ALL, "raw"), (CS_W, "cs"), (VEC_W, "vec")):
                 if rx.search(p) or rx.search(dp):
                     return k
             if NESTED_W.search(p) and not p.startswith("core::") and self._takes_stream(t):
                 return "nested"
+            if self._stream_closure(t, side):
+                return "iter"
         return None
+
+    def _stream_closure(self, t, side):
+        """a closure argument (to an iterator combinator) whose body performs stream operations"""
+        for a in t.args:
+            if a.kind not in ("copy", "move"):
+                continue
+            ty = self.b.local_ty(a.place.local) if not a.place.proj else ""
+            if "{closure@" not in ty:
+                continue
+            o = self.du.origin(a)
+            if o[0] == "agg" and o[1].startswith("closure:"):
+                g = self.w.fns.get(o[1][len("closure:"):])
+                if g is not None and g.id != self.f.id:
+                    ev = Linear(self.w, g).events(side)
+                    if ev:
+                        return True
+        return False
 
     def _takes_stream(self, t):
         """one argument is (a reborrow of) a generic reader/writer or a known stream type"""
@@ -174,7 +199,57 @@ class Linear:
 
     def _r_nested(self, bb, t):
         p = t.callee.target_p()
-        return Ev("nested:" + stem(p), self.sink(t.dest.local) if t.dest is not None else None, t.span)
+        return Ev("nested:" + stem(p), self.sink(t.dest.local) if t.dest is not None else None, t.span,
+                  fn=t.callee.target_id(), pos=self.sink_positions(t.dest.local) if t.dest is not None else None)
+
+    def _r_iter(self, bb, t):
+        return self._iter(t, "r")
+
+    def _w_iter(self, bb, t):
+        return self._iter(t, "w")
+
+    def _iter(self, t, side):
+        sub = self._closure_events(t, side)
+        p = t.callee.p or t.callee.target_p()
+        if re.search(r"iter::(traits::)?(iterator::)?Iterator::|iter::from_fn|iter::repeat_with|"
+                     r"::try_for_each$|::for_each$", p):
+            return Ev("array", None, t.span, sub=sub)
+        return list(sub or [])       # a plain higher-order call: the closure runs once
+
+    def sink_positions(self, local):
+        """for a call returning a tuple (possibly in a Result): tuple position -> where it ends up"""
+        chain, work = set(), [local]
+        while work:
+            l = work.pop()
+            if l in chain:
+                continue
+            chain.add(l)
+            for kind, x in self.uses(l):
+                if kind == "call" and x.callee.indirect is None and x.dest is not None and \
+                        PASS_R.search(x.callee.target_p()):
+                    work.append(x.dest.local)
+                elif kind == "stmt" and x.rv.kind == "use" and not x.place.proj:
+                    op = x.rv.ops[0]
+                    if op.place.local == l and not (op.place.proj and op.place.proj[-1].startswith(".") and
+                                                    op.place.proj[-1][1:].isdigit() and
+                                                    "Continue" not in "".join(op.place.proj) and
+                                                    len(op.place.proj) == 1):
+                        work.append(x.place.local)
+        out = {}
+        for blk in self.b.blocks:
+            if blk.cleanup:
+                continue
+            for s_ in blk.stmts:
+                if s_.kind == "=" and s_.rv.kind == "use" and s_.rv.ops[0].kind in ("copy", "move"):
+                    op = s_.rv.ops[0]
+                    if op.place.local in chain and op.place.proj and op.place.proj[-1].startswith(".") \
+                            and op.place.proj[-1][1:].isdigit() and len(op.place.proj) == 1 and \
+                            not s_.place.proj:
+                        k = int(op.place.proj[-1][1:])
+                        r = self.sink(s_.place.local)
+                        if r and k not in out:
+                            out[k] = r
+        return out or None
 
     # writer events
     def _w_int(self, bb, t):
@@ -221,7 +296,86 @@ class Linear:
             if re.match(r"^(&mut )+[RW]$|^[RW]$", ty):
                 continue
             attr = attr or self.source(a)
-        return Ev("nested:" + stem(p), attr, t.span)
+        return Ev("nested:" + stem(p), attr, t.span, fn=t.callee.target_id())
+
+    # ---- paths
+    def paths(self, side, cap=400):
+        """set of event sequences (tuples of Ev) along the loop-free success paths of the body;
+        None if a stream operation sits in a loop or the number of layouts exceeds `cap`"""
+        import sqlfx
+        b = self.b
+        cyc = sqlfx.cyclic_blocks(b)
+        calls = {bb: t for bb, t in self.stream_calls(side)}
+        if any(bb in cyc for bb in calls):
+            return None
+        evs = {}
+        for bb, t in calls.items():
+            k = self.classify(t, side)
+            ev = getattr(self, "_%s_%s" % (side, k))(bb, t)
+            evs[bb] = ev if isinstance(ev, list) else ([ev] if ev is not None else [])
+        memo = {}
+        onstack = set()
+
+        def err_block(bi):
+            blk = b.blocks[bi]
+            for st in blk.stmts:
+                if st.kind == "=" and st.rv.kind == "agg" and st.rv.agg[0] == "adt" and \
+                        st.rv.agg[1] == "core::result::Result" and st.rv.agg[2] == "Err" and \
+                        st.place.local == 0:
+                    return True
+            t = blk.term
+            if t.kind == "call" and t.callee.indirect is None:
+                p = t.callee.target_p()
+                if "FromResidual" in p or p.startswith("core::panicking") or \
+                        (t.target is None):
+                    return True
+            return t.kind in ("unreachable", "resume", "abort")
+
+        def succs(bi):
+            t = b.blocks[bi].term
+            if t.kind == "switch":
+                o = self.du.origin(t.discr)
+                if o[0] == "disc" and isinstance(o[1], tuple) and o[1][0] == "call" and \
+                        o[1][1].endswith("as core::ops::Try>::branch"):
+                    return [tb for v, tb in t.arms if v == 0]
+                return [tb for _v, tb in t.arms] + ([t.otherwise] if t.otherwise is not None else [])
+            if t.kind in ("call", "drop", "assert", "goto"):
+                return [t.target] if t.target is not None else []
+            return []
+
+        def go(bi):
+            if bi in memo:
+                return memo[bi]
+            if bi in onstack:
+                return set()
+            if err_block(bi):
+                memo[bi] = set()
+                return memo[bi]
+            onstack.add(bi)
+            here = tuple(evs.get(bi, ()))
+            t = b.blocks[bi].term
+            out = set()
+            if t.kind == "return":
+                out.add(here)
+            else:
+                for sb in succs(bi):
+                    if b.blocks[sb].cleanup:
+                        continue
+                    for tail in go(sb):
+                        out.add(here + tail)
+                        if len(out) > cap:
+                            break
+            onstack.discard(bi)
+            memo[bi] = out
+            return out
+        res = go(0)
+        if len(res) > cap:
+            return None
+        # dedupe by identity
+        uniq = {}
+        for seq in res:
+            uniq.setdefault(tuple(e.ident() for e in seq), seq)
+        return list(uniq.values())
 
     # ---- helpers
     def _closure_events(self, t, side):
@@ -389,7 +543,9 @@ class Linear:
                     r = None
                     tg = self.w.fns.get(x.callee.target_id()) if x.callee.indirect is None else None
                     i = [j for j, a in enumerate(x.args) if a.kind in ("copy", "move") and a.place.local == local]
-                    if tg is not None and tg.argnames and i and i[0] < len(tg.argnames):
+                    if tg is not None and tg.crate.name == "zcash_encoding":
+                        r = None
+                    elif tg is not None and tg.argnames and i and i[0] < len(tg.argnames):
                         r = tg.argnames[i[0]]
                     elif x.dest is not None and i:
                         r = self.sink(x.dest.local, depth=depth + 1, seen=seen)
@@ -415,3 +571,146 @@ def stem(p):
 
 def linear_events(world, fn, side):
     return Linear(world, fn).events(side)
+
+
+# ------------------------------------------------------------------------------- matching
+class Matcher:
+    """decides whether a writer layout is one of the reader's layouts, expanding nested codec
+    calls on either side when the other side spells the same bytes out"""
+
+    def __init__(self, world, alias=None):
+        self.w = world
+        self.cache = {}
+        self.alias = alias or {}
+        self.attr_pairs = 0
+        self.why = None
+
+    def paths(self, fid, side):
+        k = (fid, side)
+        if k not in self.cache:
+            f = self.w.fns.get(fid)
+            self.cache[k] = Linear(self.w, f).paths(side) if f is not None else None
+        return self.cache[k]
+
+    @staticmethod
+    def _norm(a):
+        if a is None:
+            return None
+        a = re.sub(r"^(n_|num_|the_)", "", a)
+        a = re.sub(r"(_bytes|_net|_byte)$", "", a)
+        return a
+
+    def enc_eq(self, r, w_):
+        a, b = r.enc, w_.enc
+        if a == b:
+            return True
+        ma, mb = re.match(r"raw:(\d+|\?)$", a), re.match(r"raw:(\d+|\?)$", b)
+        if ma and mb:
+            return "?" in (ma.group(1), mb.group(1))
+        ia, ib = re.match(r"int:(le|be):[ui](\d+)$", a), re.match(r"int:(le|be):[ui](\d+)$", b)
+        if ia and ib:
+            return ia.groups() == ib.groups()
+        if b == "cs" and w_.attr and str(w_.attr).startswith("const:0") and a in ("vector", "array", "optional"):
+            return True
+        if {a, b} <= {"cs", "cs:unbounded"}:
+            return False
+        return False
+
+    def match(self, rs, ws, depth=0):
+        rs, ws = list(rs), list(ws)
+        if depth > 80:
+            self.why = "nesting too deep"
+            return False
+        while rs and ws:
+            r, w_ = rs[0], ws[0]
+            rn, wn = r.enc.startswith("nested:"), w_.enc.startswith("nested:")
+            if rn and wn and r.enc == w_.enc:
+                rs.pop(0)
+                ws.pop(0)
+                continue
+            if rn or wn:
+                # expand the nested side (every layout of the callee) and retry
+                side, ev, rest_r, rest_w = ("r", r, rs[1:], ws) if rn else ("w", w_, rs, ws[1:])
+                ps = self.paths(ev.fn, side)
+                if not ps:
+                    self.why = "%s has no linear layout to compare with %s" % (ev.enc, (w_ if rn else r))
+                    return False
+                for p in ps:
+                    keep = self.why
+                    if side == "r" and ev.pos:
+                        q = []
+                        for e in p:
+                            m_ = re.match(r"ret\.(\d+)$", e.attr or "")
+                            if m_:
+                                e = Ev(e.enc, ev.pos.get(int(m_.group(1))), e.span, e.sub, e.checked, e.fn, e.pos)
+                            q.append(e)
+                        p = q
+                    if side == "r" and self.match(list(p) + rest_r, ws, depth + 1):
+                        return True
+                    if side == "w" and self.match(rs, list(p) + rest_w, depth + 1):
+                        return True
+                    self.why = keep or self.why
+                return False
+            if not self.enc_eq(r, w_):
+                self.why = "reader has %r where writer has %r" % (r, w_)
+                return False
+            if r.sub is not None and w_.sub is not None:
+                if not self.match(r.sub, w_.sub, depth + 1):
+                    self.why = "element codec of %s: %s" % (r.enc, self.why)
+                    return False
+            if r.sub is None and w_.sub is None:
+                ra, wa = self._norm(r.attr), self._norm(w_.attr)
+                if ra and wa and not str(wa).startswith("const:") and not re.match(r"(#|ret)", ra) \
+                        and not re.match(r"(#|ret)", wa):
+                    if ra != wa and self.alias.get(ra, ra) != self.alias.get(wa, wa) and \
+                            not (ra in wa or wa in ra):
+                        self.why = "reader stores %r as `%s` where writer emits `%s` (%r)" % (r.enc, r.attr,
+                                                                                            w_.attr, w_.enc)
+                        return False
+                    self.attr_pairs += 1
+            rs.pop(0)
+            ws.pop(0)
+        # trailing empty arrays on the reader side carry no bytes
+        if ws:
+            self.why = "writer continues with %r after the reader finished" % (ws[0],)
+            return False
+        if rs:
+            self.why = "reader continues with %r after the writer finished" % (rs[0],)
+            return False
+        return True
+
+    def empty_layout(self, ws):
+        return bool(ws) and all(e.enc == "cs" and str(e.attr).startswith("const:0") for e in ws)
+
+    def match_empty(self, rs, ws):
+        """an all-zero-counts writer layout matches a reader layout whose vectors are as many and
+        whose other operations are count-driven arrays (no bytes when the counts are zero)"""
+        vs = [e for e in rs if e.enc in ("vector",)]
+        rest = [e for e in rs if e.enc not in ("vector", "array")]
+        return len(vs) == len(ws) and not rest
+
+
+def includes(world, rf, wf, alias=None):
+    """(ok, unmatched writer layouts [(layout, why)], stats) — every layout the writer can produce
+    is a layout the reader follows"""
+    m = Matcher(world, alias)
+    rp, wp = m.paths(rf.id, "r"), m.paths(wf.id, "w")
+    if rp is None or wp is None or not rp or not wp:
+        return None, [("-", "reader or writer is not a loop-free codec")], {}
+    bad = []
+    for ws in wp:
+        okk = False
+        whys = []
+        for rs in rp:
+            m.why = None
+            if m.empty_layout(ws) and m.match_empty(rs, ws):
+                okk = True
+                break
+            if m.match(rs, ws):
+                okk = True
+                break
+            whys.append(m.why)
+        if not okk:
+            # the most informative reason: the one from the reader layout that got furthest
+            bad.append((list(ws), sorted(set(x for x in whys if x), key=len)[:2]))
+    return not bad, bad, {"reader_layouts": len(rp), "writer_layouts": len(wp), "attributed": m.attr_pairs}
